@@ -14,6 +14,7 @@ import QGen.Imports
     mutation  ::= none | drop <sect> <key> | rename <Name> | extra <key> | dropslot <slot>
 * `c08.wf <Class>`  — `wf` of the spec (C07 view) and of its C08 view
 * `c08.imp <module>` — verdict of `importFirst` for a fresh interpreter importing `<module>` first
+* `c08.reg <module>` — registered names missing after `import <module>; import quansino.mc`
 * `c07.todict <Class>` — is the dictionary reached through `todict` the one `to_dict()` returns? -/
 namespace Ser.IO
 open Ser
@@ -160,6 +161,15 @@ def handle : List String → String
       match PyImp.importFirst QGen.graph (QGen.chainOf i) with
       | .ok _ => "ok"
       | .error e => showImpErr e
+    | none => "unknown-module"
+  | ["c08.reg", m] =>
+    -- registered names missing after `import m; import quansino.mc` in a fresh interpreter
+    match QGen.moduleNames.idxOf? m with
+    | some i =>
+      let regd := (PyImp.registeredAfter QGen.graph QGen.registers (QGen.chainOf i)
+        [QGen.chainOf (QGen.moduleNames.idxOf "quansino.mc")]).map (fun k => QGen.registeredNames.getD k "")
+      let miss := (QGen.classes.flatMap (·.registered)).filter (fun n => !regd.contains n)
+      "missing " ++ ",".intercalate miss
     | none => "unknown-module"
   | ["c07.todict", cls] =>
     match specOf cls with
